@@ -186,6 +186,10 @@ class RefMixin:
                 want = held.get(x, 0)
                 if rc.count != want:
                     det = "leak" if rc.count > want else "under-count"
+                    if site == "latest" and det == "leak":
+                        # separate the recorded finding (the element delivered last stays retained until
+                        # another one replaces it) from any other leak in the same node
+                        det = "delivered-kept-until-replaced" if x in delivered_set(log) else "leak-never-delivered"
                     out.append(Violation("count!=holders", site, det, dict(element=x, count=rc.count, holders=want, log=_short(log))))
             if final:
                 for x, rc in self.rcs.items():
@@ -193,10 +197,17 @@ class RefMixin:
                         continue
                     ncb = sum(1 for e in log if e[0] == "cb" and e[1] == x)
                     if ncb == 0:
-                        out.append(Violation("callback-missing", site, "", dict(element=x, count=rc.count)))
+                        det = ""
+                        if site == "latest":
+                            det = "delivered-kept-until-replaced" if x in delivered_set(log) else "never-delivered"
+                        out.append(Violation("callback-missing", site, det, dict(element=x, count=rc.count)))
                     elif ncb > 1:
                         out.append(Violation("callback-twice", site, "", dict(element=x, callbacks=ncb)))
         return out
+
+
+def delivered_set(log):
+    return set(x for e in log if e[0] == "in" and e[1] == "S" for x in flat(e[3]))
 
 
 def _short(log):
